@@ -1,6 +1,8 @@
 import LinOp.C01.ProofsA
 import LinOp.C01.ProofsB
 import LinOp.C01.ProofsC
+import LinOp.C01.ProofsD
+import LinOp.C01.ProofsE
 /-!
 C01 — every operator acts exactly as the dense matrix it represents.  Property theorems only.
 
@@ -10,7 +12,9 @@ the constructor arguments.  Every theorem below is for all sizes (and any number
 concatenated operators), over an arbitrary commutative semiring.  Part A: Kronecker, block, batch-sum, batch-repeat,
 Mul-over-roots.  Part B: interpolation, Toeplitz circulant embedding, Cat, Masked.  Part C: permutations, sums /
 products / roots / diagonals, the Cholesky orientation (both orientations; D01 of the previous code kept as a named counterexample), base-class `to_dense`,
-`rmatmul` and the minimal user subclass.
+`rmatmul` and the minimal user subclass.  Part D: the Kronecker `_t_matmul` loop mirrored on its own.  Part E: batch
+broadcasting (`torch.broadcast_shapes`, `expand`, `_matmul_broadcast_shape`, batched matmul member by member) for batch
+shapes of arbitrary rank.
 -/
 
 /-! # from C01/PropsA.lean -/
@@ -565,3 +569,202 @@ example {α : Type} [CommSemiring α] {n : Nat} (d : Fin n → α) :
 
 end LinOp.C01
 
+
+/-! # from C01/PropsD.lean -/
+/-!
+C01 — part D: the second module-level Kronecker loop, `_t_matmul(linear_ops, kp_shape, rhs)`, modelled on its own
+(`kronTStep`, `kronTLoop`, `kronTMatmulLoop`) rather than through `_transpose_nonbatch`.  Property theorems only.
+-/
+namespace LinOp.C01
+open LinOp
+
+/-- One iteration of the `_t_matmul` loop is the `_matmul` iteration of the transposed factor
+(`linear_op._t_matmul` in place of `linear_op._matmul`, `size(-2)` and `size(-1)` swapped). -/
+theorem kronTStep_eq_kronStep_transpose {α : Type} [CommSemiring α] {c : Nat} (f : Factor α) (R : Nat)
+    (res : Nat → Fin c → α) :
+    kronTStep f R res = kronStep ⟨f.n, f.m, Mat.transpose f.A⟩ R res :=
+  D.kronTStep_eq f R res
+
+/-- The whole `_t_matmul` loop is the `_matmul` loop run on the transposed factors (`_transpose_nonbatch`),
+on any state: same final row count and same final state. -/
+theorem kronTLoop_eq {α : Type} [CommSemiring α] {c : Nat} (fs : List (Factor α)) (R : Nat)
+    (res : Nat → Fin c → α) :
+    kronTLoop fs R res = kronLoop (kronTranspose fs) R res :=
+  D.kronTLoop_eq fs R res
+
+/-- Loop invariant of the `for linear_op in linear_ops:` loop of `_t_matmul`, stated directly (no index
+transport), for any number of rectangular factors with non-empty row dimension, started on a state with
+`rowsProd fs * q` rows: the loop ends with `q * colsProd fs` rows, and row `b * colsProd fs + j` of the final
+state is `Σ_i (A₁ ⊗ … ⊗ A_P)[i, j] · res[i * q + b]`. -/
+theorem kronTLoop_spec {α : Type} [CommSemiring α] {c : Nat} (fs : List (Factor α))
+    (hpos : ∀ f ∈ fs, 0 < f.m) (q : Nat) (res : Nat → Fin c → α) :
+    (kronTLoop fs (rowsProd fs * q) res).1 = q * colsProd fs ∧
+    ∀ b, b < q → ∀ (j : Fin (colsProd fs)) (col : Fin c),
+      (kronTLoop fs (rowsProd fs * q) res).2 (b * colsProd fs + j.1) col
+        = ∑ i : Fin (rowsProd fs), kronDense fs i j * res (i.1 * q + b) col :=
+  D.kronTLoop_inv fs hpos q res
+
+/-- The `_t_matmul` loop computes `(A₁ ⊗ … ⊗ A_P)ᵀ Y` for any number of factors of any (rectangular) sizes with
+non-empty row dimensions. -/
+theorem kronTMatmulLoop_eq {α : Type} [CommSemiring α] {c : Nat} (fs : List (Factor α))
+    (hpos : ∀ f ∈ fs, 0 < f.m) (Y : Mat α (rowsProd fs) c) :
+    kronTMatmulLoop fs Y = Mat.mul (Mat.transpose (kronDense fs)) Y := by
+  funext j col
+  have h := (kronTLoop_spec fs hpos 1
+    (fun i col => if h : i < rowsProd fs then Y ⟨i, h⟩ col else 0)).2 0 Nat.one_pos j col
+  simp only [Nat.mul_one, Nat.zero_mul, Nat.zero_add, Nat.add_zero] at h
+  rw [mul_apply]
+  show (kronTLoop fs (rowsProd fs) _).2 j.1 col = _
+  rw [h]
+  refine Finset.sum_congr rfl fun i _ => ?_
+  rw [dif_pos i.2, Mat.transpose]
+
+/-- The hypothesis of `kronTMatmulLoop_eq` is not needed in the model: if some factor has an empty row dimension
+the loop returns the zero matrix, and so does the (empty-sum) dense product.  (In PyTorch `res.view(0, -1)` raises,
+so this case is a totalisation of the model, not a statement about the library.) -/
+theorem kronTMatmulLoop_eq_total {α : Type} [CommSemiring α] {c : Nat} (fs : List (Factor α))
+    (Y : Mat α (rowsProd fs) c) :
+    kronTMatmulLoop fs Y = Mat.mul (Mat.transpose (kronDense fs)) Y := by
+  by_cases hpos : ∀ f ∈ fs, 0 < f.m
+  · exact kronTMatmulLoop_eq fs hpos Y
+  · have h0 : ∃ f ∈ fs, f.m = 0 := by
+      apply Classical.byContradiction
+      intro hne
+      exact hpos fun f hf => Nat.pos_of_ne_zero fun h => hne ⟨f, hf, h⟩
+    funext j col
+    rw [mul_apply]
+    show (kronTLoop fs (rowsProd fs) _).2 j.1 col = _
+    rw [D.kronTLoop_of_empty_factor fs h0]
+    have hC := D.rowsProd_of_empty_factor fs h0
+    exact (Finset.sum_eq_zero fun i _ => False.elim (by have := i.2; omega)).symm
+
+end LinOp.C01
+
+/-! # from C01/PropsE.lean -/
+/-!
+C01 — final theorems (group E): batch broadcasting of `matmul` for batch shapes of ARBITRARY rank
+(`torch.broadcast_shapes`, `expand`, `_matmul_broadcast_shape`).  All statements quantify over lists of any
+length; the proofs are by induction on the shape lists (see `ProofsE.lean`).
+-/
+namespace LinOp.C01
+
+variable {α : Type}
+
+/-! ## 1. `expand` reads valid members -/
+
+/-- (reversed-order lists) If the shapes `s`, `t` broadcast to `out` and `idx` is a valid multi-index of `out`,
+then the multi-indices that `expand` reads from the two operands are valid multi-indices of `s` and of `t`. -/
+theorem bcastRev_restrict_inBox {s t out idx : List Nat} (h : bcastRev s t = some out) (hb : InBox out idx) :
+    InBox s (restrictRev s idx) ∧ InBox t (restrictRev t idx) :=
+  E.bcastRev_restrict_inBox h hb
+
+/-- `InBox` does not depend on the order in which dimensions are listed (both lists reversed together). -/
+theorem inBox_reverse_iff {s idx : List Nat} : InBox s.reverse idx.reverse ↔ InBox s idx :=
+  E.inBox_reverse_iff
+
+/-- Index-wise characterisation of `InBox`: same rank and every coordinate below the corresponding size. -/
+theorem inBox_iff_getElem {s idx : List Nat} :
+    InBox s idx ↔ idx.length = s.length ∧ ∀ k (h : k < idx.length) (h' : k < s.length), idx[k] < s[k] :=
+  E.inBox_iff_getElem
+
+/-- (user-facing order) If `torch.broadcast_shapes(s, t) = out` and `idx` is a valid batch multi-index of `out`,
+then `restrict s idx` / `restrict t idx` (the members that `expand` reads) are valid batch multi-indices of the
+operands with batch shapes `s` / `t`. -/
+theorem restrict_inBox {s t out idx : List Nat} (h : broadcastShape s t = some out) (hb : InBox out idx) :
+    InBox s (restrict s idx) ∧ InBox t (restrict t idx) :=
+  E.restrict_inBox h hb
+
+/-! ## 2. batched matmul, member by member -/
+
+/-- Member `idx` of the library's batched matmul is the per-member code path `f` applied to the operand members
+`restrict sA idx` and `restrict sB idx`. -/
+theorem matmulBroadcast_member {n m c : Nat} (f : Mat α n m → Mat α m c → Mat α n c)
+    (sA : List Nat) (A : BMat α n m) (sB : List Nat) (X : BMat α m c) (idx : List Nat) :
+    matmulBroadcast f sA A sB X idx = f (A (restrict sA idx)) (X (restrict sB idx)) := rfl
+
+section
+variable [Add α] [Mul α] [Zero α]
+
+/-- With the dense product as the per-member path: member `idx` of the batched product is the dense product of
+operand members `restrict sA idx` and `restrict sB idx`. -/
+theorem matmulBroadcast_mul_member {n m c : Nat}
+    (sA : List Nat) (A : BMat α n m) (sB : List Nat) (X : BMat α m c) (idx : List Nat) :
+    matmulBroadcast Mat.mul sA A sB X idx = Mat.mul (A (restrict sA idx)) (X (restrict sB idx)) := rfl
+
+/-- Batched matmul refines the dense definition: for every valid member `idx` of the broadcast batch shape, the
+result member is the dense product of operand members which are themselves valid members of the operands. -/
+theorem matmul_broadcast_refines {n m c : Nat} {sA sB out idx : List Nat} (A : BMat α n m) (X : BMat α m c)
+    (h : broadcastShape sA sB = some out) (hb : InBox out idx) :
+    matmulBroadcast Mat.mul sA A sB X idx = Mat.mul (A (restrict sA idx)) (X (restrict sB idx)) ∧
+      InBox sA (restrict sA idx) ∧ InBox sB (restrict sB idx) :=
+  ⟨rfl, restrict_inBox h hb⟩
+
+end
+
+/-! ## 3. shape facts about `torch.broadcast_shapes` -/
+
+/-- A shape broadcasts with itself to itself. -/
+theorem broadcastShape_self (s : List Nat) : broadcastShape s s = some s := by
+  simp [broadcastShape, E.bcastRev_self]
+
+/-- The empty batch shape broadcasts with anything (left). -/
+theorem broadcastShape_nil_left (t : List Nat) : broadcastShape [] t = some t := by
+  simp [broadcastShape]
+
+/-- The empty batch shape broadcasts with anything (right). -/
+theorem broadcastShape_nil_right (s : List Nat) : broadcastShape s [] = some s := by
+  simp [broadcastShape]
+
+/-- Broadcasting is symmetric (including which pairs raise). -/
+theorem broadcastShape_comm (s t : List Nat) : broadcastShape s t = broadcastShape t s := by
+  simp [broadcastShape, E.bcastRev_comm s.reverse t.reverse]
+
+/-- The broadcast shape has the rank of the higher-rank operand. -/
+theorem broadcastShape_length {s t out : List Nat} (h : broadcastShape s t = some out) :
+    out.length = max s.length t.length := by
+  have := E.bcastRev_length (E.broadcastShape_eq_some.mp h)
+  simpa using this
+
+/-- An operand that already has the output batch shape reads its own member (true even with size-1 dimensions,
+since then the index entry is `< 1`, i.e. `0`). -/
+theorem restrict_of_eq {s idx : List Nat} (h : InBox s idx) : restrict s idx = idx :=
+  E.restrict_of_inBox h
+
+/-- Special case of `restrict_of_eq` (the size-1 hypothesis is not needed). -/
+theorem restrict_same {s idx : List Nat} (h : InBox s idx) (_h1 : ∀ a ∈ s, a ≠ 1) : restrict s idx = idx :=
+  restrict_of_eq h
+
+/-! ## 4. `_matmul_broadcast_shape` raises exactly on incompatible sizes -/
+
+/-- `_matmul_broadcast_shape` raises iff the inner sizes differ or the batch shapes do not broadcast. -/
+theorem matmulShape_none_iff (sA : List Nat) (m n : Nat) (sB : List Nat) (n' p : Nat) :
+    matmulShape sA m n sB n' p = none ↔ (n ≠ n' ∨ broadcastShape sA sB = none) := by
+  unfold matmulShape
+  by_cases h : n = n'
+  · simp [h]
+  · simp [h]
+
+/-- For a 1-D right-hand side, `_matmul_broadcast_shape` raises iff the lengths differ. -/
+theorem matmulShapeVec_none_iff (sA : List Nat) (m n p : Nat) : matmulShapeVec sA m n p = none ↔ n ≠ p := by
+  unfold matmulShapeVec
+  by_cases h : n = p
+  · simp [h]
+  · simp [h]
+
+/-- With matching inner sizes the result shape is the broadcast batch shape followed by `(m, p)`. -/
+theorem matmulShape_some (sA : List Nat) (m n : Nat) (sB : List Nat) (p : Nat) :
+    matmulShape sA m n sB n p = (broadcastShape sA sB).map (· ++ [m, p]) := by
+  simp [matmulShape]
+
+/-! ## concrete instances -/
+
+example : broadcastShape [2, 1, 3] [4, 1] = some [2, 4, 3] := by decide
+example : broadcastShape [2, 3] [4, 1, 1] = some [4, 2, 3] := by decide
+example : broadcastShape [2, 3] [4, 2] = none := by decide
+example : broadcastShape [0, 1] [1, 5] = some [0, 5] := by decide
+example : restrict [4, 1] [1, 3, 2] = [3, 0] := by decide
+example : restrict [2, 1, 3] [1, 3, 2] = [1, 0, 2] := by decide
+example : matmulShape [2, 1, 3] 5 6 [4, 1] 6 7 = some [2, 4, 3, 5, 7] := by decide
+example : matmulShape [2, 1, 3] 5 6 [4, 1] 8 7 = none := by decide
+
+end LinOp.C01
